@@ -86,10 +86,12 @@ def main():
     meta["caught"] = any(r["caught"] for r in results.values())
     dst = VERIF / "seeded" / name
     dst.mkdir(parents=True, exist_ok=True)
-    shutil.copy(patch, dst / "patch.diff")
-    shutil.copy(demo, dst / "demo.py")
+    if src.resolve() != dst.resolve():
+        shutil.copy(patch, dst / "patch.diff")
+        shutil.copy(demo, dst / "demo.py")
     if (src / "notes.md").is_file():
-        shutil.copy(src / "notes.md", dst / "notes.md")
+        if src.resolve() != dst.resolve():
+            shutil.copy(src / "notes.md", dst / "notes.md")
         meta["needs"] = "see notes.md"
     (dst / "meta.json").write_text(json.dumps(meta, indent=1))
     print(json.dumps({k: meta[k] for k in ("confirmed", "caught")}))
